@@ -96,7 +96,11 @@ def check_elastic(case, rec):
     sig_km = Cm @ eps
     eps_t = gmod.from_km(eps)
     sig_t = gmod.from_km(sig_km)
-    gscale = np.abs(G).max() + 1e-3  # floor: a zero gradient must give strains at round-off of the O(1) field
+    # floor: a zero gradient must give strains at round-off of the O(1) field.  Strains are differences of nodal values
+    # divided by node spacings: the round-off of a displacement of magnitude |u| over a spacing h is eps |u| / h, which
+    # is not small against |G| on a micrometre mesh carrying an O(1) offset (thorough tier, seed 4: DESIGN 6.3); that
+    # term enters at the identity level (1e-12 |u| / (h / 20), 20 = bound on the conditioning of the affine maps)
+    gscale = np.abs(G).max() + 1e-3 + 1e-5 * 20.0 * np.abs(uex).max() / gm.min_node_spacing(mesh)
     sscale = np.abs(Cm).max() * gscale
     for nodeValues in (False, True):
         E = np.asarray(simu.Result("Strain", nodeValues=nodeValues), float)
